@@ -12,7 +12,7 @@ open MaddyVerif.Errors
 /-- Under `LeavesCoherent`, code and enhanced-code annotation come from the same node. -/
 theorem fields_same_node (e : Err) (h : LeavesCoherent e) :
     (codeField e = none ∧ enchField e = none) ∨
-    (∃ c en, codeField e = some c ∧ enchField e = some en ∧ pairOk c en = true) := by
+    (∃ c en, codeField e = some c ∧ enchField e = some en ∧ annOk c en = true) := by
   induction e with
   | plain => simp [codeField, enchField]
   | deadline => simp [codeField, enchField]
@@ -27,109 +27,132 @@ theorem fields_same_node (e : Err) (h : LeavesCoherent e) :
     · right; exact ⟨_, _, rfl, rfl, h.1⟩
   | rawSmtp code en m => simp [codeField, enchField]
 
-theorem coherent_of_pairOk {c : Nat} {en : Ench} {m : Msg} (h : pairOk c en = true) :
+theorem annOk_cases {c : Nat} {en : Ench} (h : annOk c en = true) :
+    (notSet en = false ∧ en.cls = c / 100 ∧ (en.cls = 4 ∨ en.cls = 5)) ∨
+    (notSet en = true ∧ (c / 100 = 4 ∨ c / 100 = 5)) := by
+  unfold annOk pairOk at h
+  by_cases hn : notSet en = true
+  · right; refine ⟨hn, ?_⟩
+    simp [hn] at h
+    rcases h with h | h
+    · unfold notSet at hn; simp at hn; omega
+    · exact h
+  · left
+    simp [hn] at h
+    exact ⟨by simpa using hn, h.1, h.2⟩
+
+/-- On the wire an annotation that is `annOk` is coherent (go-smtp fills in class.0.0 when the
+enhanced code is unset). -/
+theorem coherent_of_annOk {c : Nat} {en : Ench} {m : Msg} (h : annOk c en = true) :
     Coherent ⟨c, some en, m⟩ := by
-  simp [pairOk] at h
-  exact ⟨en, rfl, h.1, h.2⟩
+  rcases annOk_cases h with ⟨hn, h1, h2⟩ | ⟨hn, h2⟩
+  · exact ⟨en, by simp [wireEnch, hn], h1, h2⟩
+  · rcases h2 with h2 | h2
+    · exact ⟨⟨4, 0, 0⟩, by simp [wireEnch, hn, h2], by simp [h2], by simp⟩
+    · exact ⟨⟨5, 0, 0⟩, by simp [wireEnch, hn, h2], by simp [h2], by simp⟩
 
 theorem coherent_notset_451 (m : Msg) : Coherent ⟨451, none, m⟩ := ⟨⟨4,0,0⟩, by simp [wireEnch], by simp, by simp⟩
 theorem coherent_notset_554 (m : Msg) : Coherent ⟨554, none, m⟩ := ⟨⟨5,0,0⟩, by simp [wireEnch], by simp, by simp⟩
-
-theorem coherent_451_400 (m : Msg) : Coherent ⟨451, some ⟨4,0,0⟩, m⟩ := ⟨⟨4,0,0⟩, by simp [wireEnch], by simp, by simp⟩
-theorem coherent_554_500 (m : Msg) : Coherent ⟨554, some ⟨5,0,0⟩, m⟩ := ⟨⟨5,0,0⟩, by simp [wireEnch], by simp, by simp⟩
+theorem coherent_451_400 (m : Msg) : Coherent ⟨451, some ⟨4,0,0⟩, m⟩ := ⟨⟨4,0,0⟩, by simp [wireEnch, notSet], by simp, by simp⟩
+theorem coherent_554_500 (m : Msg) : Coherent ⟨554, some ⟨5,0,0⟩, m⟩ := ⟨⟨5,0,0⟩, by simp [wireEnch, notSet], by simp, by simp⟩
 
 theorem coherent_msg_irrel {c : Nat} {en : Option Ench} {m m' : Msg} (h : Coherent ⟨c, en, m⟩) :
     Coherent ⟨c, en, m'⟩ := by
   obtain ⟨e, h1, h2⟩ := h
   exact ⟨e, by simpa [wireEnch] using h1, h2⟩
 
+/-- shape of `wrapErr` away from the deadline and plain-go-smtp-error branches -/
+theorem wrapErr_false_shape (e : Err) (hd : hasDeadline e = false)
+    (hr : ∀ c en m, e ≠ .rawSmtp c en m) :
+    wrapErr false e = ⟨(codeField e).getD (if isTemporary e then 451 else 554), enchField e,
+      msgOf (msgField e)⟩ := by
+  unfold wrapErr
+  cases e <;> simp_all
+
+theorem wrapErr_mangle (e : Err) :
+    wrapErr true e = { wrapErr false e with msg := mangleMsg (wrapErr false e).msg } := by
+  unfold wrapErr; by_cases hd : hasDeadline e = true <;> simp [hd, mangleMsg]
+
 /-- **C16 (endpoint).** Every reply `wrapErr` produces for a value whose annotations are
 class-coherent has basic and enhanced code of the same class (4 or 5) on the wire. -/
 theorem C16_endpoint_reply_classes_agree (mang : Bool) (e : Err) (h : LeavesCoherent e) :
     Coherent (wrapErr mang e) := by
   have key : Coherent (wrapErr false e) := by
-    unfold wrapErr
     by_cases hd : hasDeadline e = true
-    · simp [hd]; exact ⟨⟨4,4,5⟩, by simp [wireEnch], by simp, by simp⟩
-    · simp [hd]
-      cases e with
-      | rawSmtp c en m => exact coherent_of_pairOk (by simpa [LeavesCoherent] using h)
-      | plain => simp [codeField, enchField, isTemporary, tempOf]; exact coherent_notset_554 _
-      | deadline => simp [hasDeadline] at hd
-      | net t =>
-        cases t <;> simp [codeField, enchField, isTemporary, tempOf]
-        · exact coherent_notset_554 _
-        · exact coherent_notset_451 _
-      | smtp code en m =>
-        rcases fields_same_node _ h with ⟨h1, _⟩ | ⟨c, en', h1, h2, h3⟩
-        · simp [codeField] at h1
-        · simp only [h1, h2, Option.getD_some]; exact coherent_of_pairOk h3
-      | smtpWrap code en m inner =>
-        rcases fields_same_node _ h with ⟨h1, _⟩ | ⟨c, en', h1, h2, h3⟩
-        · simp [codeField] at h1
-        · simp only [h1, h2, Option.getD_some]; exact coherent_of_pairOk h3
-      | withTemp t i =>
-        rcases fields_same_node _ h with ⟨h1, h2⟩ | ⟨c, en', h1, h2, h3⟩
+    · unfold wrapErr; simp [hd]; exact ⟨⟨4,4,5⟩, by simp [wireEnch, notSet], by simp, by simp⟩
+    · have hd' : hasDeadline e = false := by simpa using hd
+      by_cases hraw : ∃ c en m, e = .rawSmtp c en m
+      · obtain ⟨c, en, m, rfl⟩ := hraw
+        unfold wrapErr; simp [hasDeadline]
+        exact coherent_of_annOk (by simpa [LeavesCoherent] using h)
+      · have hr : ∀ c en m, e ≠ .rawSmtp c en m := by
+          intro c en m he; exact hraw ⟨c, en, m, he⟩
+        rw [wrapErr_false_shape e hd' hr]
+        rcases fields_same_node _ h with ⟨h1, h2⟩ | ⟨c, en, h1, h2, h3⟩
         · simp only [h1, h2, Option.getD_none]
-          by_cases ht : isTemporary (.withTemp t i) = true
+          by_cases ht : isTemporary e = true
           · simp [ht]; exact coherent_notset_451 _
           · simp [ht]; exact coherent_notset_554 _
-        · simp only [h1, h2, Option.getD_some]; exact coherent_of_pairOk h3
-      | withFields c0 en0 m0 i =>
-        rcases fields_same_node _ h with ⟨h1, h2⟩ | ⟨c, en', h1, h2, h3⟩
-        · simp only [h1, h2, Option.getD_none]
-          by_cases ht : isTemporary (.withFields c0 en0 m0 i) = true
-          · simp [ht]; exact coherent_notset_451 _
-          · simp [ht]; exact coherent_notset_554 _
-        · simp only [h1, h2, Option.getD_some]; exact coherent_of_pairOk h3
+        · simp only [h1, h2, Option.getD_some]; exact coherent_of_annOk h3
   cases mang with
   | false => exact key
-  | true =>
-    have : wrapErr true e = { wrapErr false e with msg := mangleMsg (wrapErr false e).msg } := by
-      unfold wrapErr; by_cases hd : hasDeadline e = true <;> simp [hd, mangleMsg]
-    rw [this]; exact coherent_msg_irrel key
+  | true => rw [wrapErr_mangle]; exact coherent_msg_irrel key
 
-/-- **C16 (queue record).** The error the queue stores per recipient (and prints in failure
-reports) has basic and enhanced code of the same class. -/
-theorem C16_queue_record_classes_agree (e : Err) (h : LeavesCoherent e) :
-    Coherent (toSMTPErr e) := by
+theorem toSMTPErr_shape (e : Err) (hr : ∀ c en m, e ≠ .rawSmtp c en m) :
+    toSMTPErr e = ⟨(codeField e).getD (if isTemporaryOrUnspec e then 451 else 554),
+      some (pickEnch (enchField e) (if isTemporaryOrUnspec e then ⟨4,0,0⟩ else ⟨5,0,0⟩)),
+      msgOf (msgField e)⟩ := by
   unfold toSMTPErr
-  cases e with
-  | rawSmtp c en m => exact coherent_of_pairOk (by simpa [LeavesCoherent] using h)
-  | plain => simp [codeField, enchField, isTemporaryOrUnspec, tempOf]; exact coherent_451_400 _
-  | deadline => simp [codeField, enchField, isTemporaryOrUnspec, tempOf]; exact coherent_451_400 _
-  | net t =>
-    cases t <;> simp [codeField, enchField, isTemporaryOrUnspec, tempOf]
-    · exact coherent_554_500 _
-    · exact coherent_451_400 _
-  | smtp code en m =>
-    rcases fields_same_node _ h with ⟨h1, _⟩ | ⟨c, en', h1, h2, h3⟩
-    · simp [codeField] at h1
-    · simp only [h1, h2, Option.getD_some]; exact coherent_of_pairOk h3
-  | smtpWrap code en m inner =>
-    rcases fields_same_node _ h with ⟨h1, _⟩ | ⟨c, en', h1, h2, h3⟩
-    · simp [codeField] at h1
-    · simp only [h1, h2, Option.getD_some]; exact coherent_of_pairOk h3
-  | withTemp t i =>
-    rcases fields_same_node _ h with ⟨h1, h2⟩ | ⟨c, en', h1, h2, h3⟩
-    · simp only [h1, h2, Option.getD_none]
-      by_cases ht : isTemporaryOrUnspec (.withTemp t i) = true
-      · simp [ht]; exact coherent_451_400 _
-      · simp [ht]; exact coherent_554_500 _
-    · simp only [h1, h2, Option.getD_some]; exact coherent_of_pairOk h3
-  | withFields c0 en0 m0 i =>
-    rcases fields_same_node _ h with ⟨h1, h2⟩ | ⟨c, en', h1, h2, h3⟩
-    · simp only [h1, h2, Option.getD_none]
-      by_cases ht : isTemporaryOrUnspec (.withFields c0 en0 m0 i) = true
-      · simp [ht]; exact coherent_451_400 _
-      · simp [ht]; exact coherent_554_500 _
-    · simp only [h1, h2, Option.getD_some]; exact coherent_of_pairOk h3
-
+  cases e <;> simp_all
 
 theorem toSMTPErr_code (e : Err) (hr : ∀ c en m, e ≠ .rawSmtp c en m) :
     (toSMTPErr e).code = (codeField e).getD (if isTemporaryOrUnspec e then 451 else 554) := by
-  unfold toSMTPErr
-  cases e <;> simp_all
+  rw [toSMTPErr_shape e hr]
+
+theorem pairOk_cases {c : Nat} {en : Ench} (h : pairOk c en = true) :
+    en.cls = c / 100 ∧ (en.cls = 4 ∨ en.cls = 5) := by
+  simp [pairOk] at h; exact h
+
+/-- **C16 (queue record).** The error the queue stores per recipient (and prints in failure
+reports) carries an enhanced code of the same class as its basic code — as stored, with nothing
+filling in a missing code. (`MarkersAgree` is used only for annotations whose enhanced code is
+unset — e.g. the relayed reply of a server that sends none — where the class of the stored
+enhanced code comes from the temporariness.) -/
+theorem C16_queue_record_classes_agree (e : Err) (h : LeavesCoherent e) (hm : MarkersAgree e) :
+    StoredCoherent (toSMTPErr e) := by
+  by_cases hraw : ∃ c en m, e = .rawSmtp c en m
+  · obtain ⟨c, en, m, rfl⟩ := hraw
+    have h3 : annOk c en = true := by simpa [LeavesCoherent] using h
+    unfold toSMTPErr; simp only [pickEnch]
+    rcases annOk_cases h3 with ⟨hn, h4, h5⟩ | ⟨hn, h5⟩
+    · simp only [hn, Bool.false_eq_true, ↓reduceIte]
+      exact ⟨en, rfl, h4, h5⟩
+    · simp only [hn, ↓reduceIte]
+      have hq : isTemporaryOrUnspec (.rawSmtp c en m) = (c / 100 == 4) := by
+        simp [isTemporaryOrUnspec, tempOf]
+      rw [hq]
+      rcases h5 with h5 | h5
+      · simp [h5]; exact ⟨⟨4,0,0⟩, rfl, by simp [h5], by simp⟩
+      · simp [h5]; exact ⟨⟨5,0,0⟩, rfl, by simp [h5], by simp⟩
+  · have hr : ∀ c en m, e ≠ .rawSmtp c en m := by
+      intro c en m he; exact hraw ⟨c, en, m, he⟩
+    rw [toSMTPErr_shape e hr]
+    rcases fields_same_node _ h with ⟨h1, h2⟩ | ⟨c, en, h1, h2, h3⟩
+    · simp only [h1, h2, Option.getD_none, pickEnch]
+      by_cases ht : isTemporaryOrUnspec e = true
+      · simp [ht]; exact ⟨⟨4,0,0⟩, rfl, by simp, by simp⟩
+      · simp [ht]; exact ⟨⟨5,0,0⟩, rfl, by simp, by simp⟩
+    · simp only [h1, h2, Option.getD_some, pickEnch]
+      rcases annOk_cases h3 with ⟨hn, h4, h5⟩ | ⟨hn, h5⟩
+      · simp only [hn, Bool.false_eq_true, ↓reduceIte]
+        exact ⟨en, rfl, h4, h5⟩
+      · simp only [hn, ↓reduceIte]
+        have ht := hm c h1
+        have hq : isTemporaryOrUnspec e = (c / 100 == 4) := by simp [isTemporaryOrUnspec, ht]
+        rw [hq]
+        rcases h5 with h5 | h5
+        · simp [h5]; exact ⟨⟨4,0,0⟩, rfl, by simp [h5], by simp⟩
+        · simp [h5]; exact ⟨⟨5,0,0⟩, rfl, by simp [h5], by simp⟩
 
 /-- **C16 (class ⇔ retry).** For every value whose markers agree with its annotations, the
 queue retries the failure exactly when the code it records is 4yz, and does not retry it
@@ -137,7 +160,7 @@ exactly when the recorded code is 5yz. -/
 theorem C16_class_matches_retry (e : Err) (h : LeavesCoherent e) (hm : MarkersAgree e) :
     (queueRetries e = true ↔ (toSMTPErr e).code / 100 = 4) ∧
     (queueRetries e = false ↔ (toSMTPErr e).code / 100 = 5) := by
-  have hco := C16_queue_record_classes_agree e h
+  have hco := C16_queue_record_classes_agree e h hm
   obtain ⟨en, _, h2, h3⟩ := hco
   have hcls : (toSMTPErr e).code / 100 = 4 ∨ (toSMTPErr e).code / 100 = 5 := by omega
   suffices hs : queueRetries e = true ↔ (toSMTPErr e).code / 100 = 4 by
@@ -168,8 +191,9 @@ theorem C16_class_matches_retry (e : Err) (h : LeavesCoherent e) (hm : MarkersAg
 theorem wrapErr_code (mang : Bool) (e : Err) (hd : hasDeadline e = false)
     (hr : ∀ c en m, e ≠ .rawSmtp c en m) :
     (wrapErr mang e).code = (codeField e).getD (if isTemporary e then 451 else 554) := by
-  unfold wrapErr
-  cases e <;> cases mang <;> simp_all
+  cases mang
+  · rw [wrapErr_false_shape e hd hr]
+  · rw [wrapErr_mangle, wrapErr_false_shape e hd hr]
 
 /-- **C16 (endpoint class).** A failure classified temporary is answered 4yz; one classified
 permanent is answered 5yz (unless the deadline branch answers 451 first). -/
@@ -213,9 +237,9 @@ theorem C16_unannotated_is_generic (mang : Bool) (e : Err) (h : msgField e = non
   · unfold wrapErr
     by_cases hd : hasDeadline e = true
     · simp [hd]
-    · cases e <;> cases mang <;> simp_all [mangleMsg]
+    · cases e <;> cases mang <;> simp_all [mangleMsg, msgOf]
   · unfold toSMTPErr
-    cases e <;> simp_all
+    cases e <;> simp_all [msgOf]
 
 theorem mangle_ascii (cps : List Nat) : ∀ ch ∈ mangle cps, ch < 128 := by
   intro ch hch
@@ -345,7 +369,7 @@ theorem C16_milter_reply_coherent (code : Nat) (h : code / 100 = 4 ∨ code / 10
 def sample1 : Err := .withFields none none none (.withTemp true (.smtpWrap 450 ⟨4,4,2⟩ [104,105] .plain))
 example : LeavesCoherent sample1 ∧ MarkersAgree sample1 := by
   constructor
-  · simp [sample1, LeavesCoherent, pairOk]
+  · simp [sample1, LeavesCoherent, annOk, pairOk]
   · intro c hc; simp [sample1, codeField] at hc; subst hc; simp [sample1, tempOf]
 example : wrapErr true sample1 = ⟨450, some ⟨4,4,2⟩, .text [104,105]⟩ := by decide
 example : queueRetries sample1 = true := by decide
@@ -356,6 +380,6 @@ theorem C16_marker_disagreement_breaks_retry_class :
     LeavesCoherent (Err.withTemp true (.smtp 550 ⟨5,1,1⟩ [])) ∧
     queueRetries (Err.withTemp true (.smtp 550 ⟨5,1,1⟩ [])) = true ∧
     (toSMTPErr (Err.withTemp true (.smtp 550 ⟨5,1,1⟩ []))).code / 100 = 5 := by
-  refine ⟨by simp [LeavesCoherent, pairOk], by decide, by decide⟩
+  refine ⟨by simp [LeavesCoherent, annOk, pairOk], by decide, by decide⟩
 
 end MaddyVerif.C16
